@@ -458,6 +458,9 @@ def rule_inverse(rep, tier):
                                   "%s %s ad %d message %d" % (alg, fam, a, n),
                                   "ascon%s_%s" % (alg, {"oneshot": "aead_decrypt", "incremental": "aead_decrypt_finalize",
                                                         "masked": "masked_aead_decrypt"}[fam])))
+            for (a, n) in ([(0, 0), (1, 3), (8, 17)] if tier == "quick" else [(a, n) for a in (0, 5) for n in (0, 1, 7, 8, 9, 17, 33)]):
+                cases.append((js, cname, layout, "case_aead_decrypt_session", (alg, a, n),
+                              "%s session first packet ad %d message %d" % (alg, a, n), "ascon%s_aead_start" % alg))
     for d in modecheck.run_cases("C02", rid, tier, cases, None):
         rep.merge(d)
     rep.floor_discharged(rid, int(0.9 * len(cases)))
